@@ -340,10 +340,10 @@ class Evaluator:
     def dict_update(self, d, src, module, node):
         if isinstance(src, DictV):
             for k, v in src.items:
-                if v.site is None:
+                if v.site is None and module is not None:
                     v.site = (module, node.lineno)
                 d.set(k, v)
-                if isinstance(k, Const):
+                if isinstance(k, Const) and module is not None:
                     d.sites = getattr(d, 'sites', {})
                     d.sites[k.v] = getattr(src, 'sites', {}).get(
                         k.v, (module, node.lineno))
@@ -356,16 +356,16 @@ class Evaluator:
             if kvs is not None and all(kv is not None and len(kv) == 2
                                        for kv in kvs):
                 for k, v in kvs:
-                    if v.site is None:
+                    if v.site is None and module is not None:
                         v.site = (module, node.lineno)
                     d.set(k, v)
-                    if isinstance(k, Const):
+                    if isinstance(k, Const) and module is not None:
                         d.sites = getattr(d, 'sites', {})
                         d.sites[k.v] = (module, node.lineno)
                 return
             d.items.append((Unknown('update key'),
                             Unknown('update from %r at %s:%d' % (
-                                src, module.rel, node.lineno))))
+                                src, getattr(module, 'rel', '?'), node.lineno))))
 
     # -- expressions --------------------------------------------------------
     def eval(self, module, node, env):
@@ -542,6 +542,10 @@ class Evaluator:
                         st.value, ast.Call) and isinstance(
                         st.value.func, ast.Attribute):
                     self.method_stmt(ci.module, st.value, cenv)
+                elif isinstance(st, (ast.For, ast.If, ast.AugAssign,
+                                     ast.AnnAssign)):
+                    # tables filled by a loop / under a constant condition
+                    self.exec_stmt(ci.module, st, cenv)
             for k, v in cenv.items():
                 cache[(ci.fq, k)] = v
             if key not in cache or isinstance(cache[key], Unknown):
@@ -651,6 +655,11 @@ class Evaluator:
         if name == 'collections.defaultdict':
             d = DictV(kind='defaultdict',
                       factory=args[0] if args else None)
+            # defaultdict(factory, initial mapping / pairs, **items)
+            for a in args[1:]:
+                self.dict_update(d, a, None, node)
+            for k, v in kw.items():
+                d.set(Const(k), v)
             return d
         if name == 'schedula.combine_dicts':
             d = DictV()
